@@ -24,11 +24,11 @@ Proof. intros st [ps [sched [evs H]]]. eapply run_inv; [apply inv_init|exact H].
 Lemma reachable_step : forall st t st' evs, reachable st -> step_ev st t = Some (st', evs) -> reachable st'.
 Proof.
   intros st t st' evs [ps [sched [evs0 H]]] Hs. exists ps, (sched ++ [t]), (evs0 ++ evs).
-  revert H. generalize (init ps). unfold run. induction sched as [|a r IH]; intros s0 H; simpl in *.
+  revert evs0 H. generalize (init ps). unfold run. induction sched as [|a r IH]; intros s0 evs0 H; simpl in *.
   - inversion H; subst. unfold step_ev in Hs. rewrite Hs. rewrite app_nil_r. reflexivity.
   - destruct (step_gen true s0 a) as [[s1 e1]|]; [|discriminate].
     destruct (run_gen true s1 r) as [[s2 e2]|] eqn:Hr; [|discriminate]. inversion H; subst.
-    rewrite (IH s1 eq_refl). rewrite app_assoc. reflexivity.
+    rewrite (IH s1 e2 Hr). rewrite app_assoc. reflexivity.
 Qed.
 
 (* ------------------------------------------------------------------ queued_once *)
